@@ -38,7 +38,7 @@ pub static DEF: PropDef = PropDef {
     ],
     required_probes: &[
         "fault.eintr", "fault.eof", "fault.ioerr", "fault.flip", "mut.dup", "mut.reorder", "mut.reencode", "mut.swap", "mut.rename", "mut.nest", "mut.lists",
-        "entry.value-tree", "entry.from_reader", "entry.capi", "probe.nonutf8_key_depth2", "probe.prepopulated", "probe.writer_fault",
+        "entry.value-tree", "entry.from_reader", "entry.capi", "probe.nonutf8_key_depth2", "probe.prepopulated", "probe.writer_fault", "probe.refusal_burst",
     ],
     extra: None,
 };
@@ -795,6 +795,21 @@ fn run(ctx: &RunCtx) -> Result<(), Violation> {
     ][choose_w(&[6, 2, 2, 2, 4, 1, 2, 2, 3, 3], "mutation")];
     let consumer = gen_consumer();
     let prepopulate = chance(1, 3, "prepopulate");
+    if chance(1, 25, "refusal_burst") {
+        // many refused documents in a row on this thread (state that accumulates per thread must not exist)
+        let n = [33usize, 65, 130, 300][choose(4, "burst.n")];
+        let bad: &[u8] = [&b"{\"no.such.field\":1}"[..], &b"{\"$lists\":[{\"type\":{\"Array\":{\"Array\":\"Strng\"}},\"data\":{}}]}"[..], &b"{\"x\":[[[[[[[[[["[..], &b"[1,2"[..]][choose(4, "burst.doc")];
+        let mut scratch = ExecutionContext::new(&setup.scheme);
+        let mut st = IoStats::default();
+        for _ in 0..n {
+            match deliver_ctx(&mut scratch, Consumer::Serde(Entry::Reader), bad, &ReadPlan::clean(), &mut st) {
+                Err(p) => return Err(v("deserialize-panic", "burst", p)),
+                Ok(Ok(())) => return Err(v("invalid-document-accepted", "burst", String::from_utf8_lossy(bad).into_owned())),
+                Ok(Err(_)) => {}
+            }
+        }
+        kernel::count("probe.refusal_burst");
+    }
     transport(&setup, producer, mutation, consumer, prepopulate, true, ctx)
 }
 
